@@ -17,7 +17,7 @@ build() {
       $GO build -o "$W/bin/vrewrite" ./cmd/vrewrite || exit 2
     fi
     rm -rf "$W/ov"
-    "$W/bin/vrewrite" -repo "$REPO" -out "$W/ov" -shimdir "$VERIF/shim" || exit 2
+    "$W/bin/vrewrite" -repo "$REPO" -out "$W/ov" -shimdir "$VERIF/shim" -also "$VERIF/harness,$VERIF/props" || exit 2
     $GO build -overlay "$W/ov/overlay.json" -o "$W/bin/check" ./cmd/check || exit 2
   )
 }
